@@ -54,5 +54,11 @@ CLAIMED = {
         design_ref="§4 C03",
         note="render-time error kinds are the seven listed in ErrorModes.tla; parse-time family bounded by length 4 (thorough 5); resource-limit errors are covered under C07/C08",
     ),
+    "C09": dict(
+        technique="TLA+ spec Recursion.tla (scope-chain and copy-depth counters of recursive include/render/extends/block/call lassos; liveness under WF) and BlockParser.tla (Progress, Terminates) model-checked with TLC; every enumerated family rendered and every token sequence parsed in the real engine under a CPU-time alarm, with the observed recursion level compared with the model's",
+        text="TLC checks CutOff/LevelsBounded/Progress and Terminates (WF) on every assignment of one edge (none/include/render/extends/extends+block+include/call) per template over 2 (thorough 3) templates with the edge at block depths {0,12,29} (thorough +5); each family is rendered sync+async: the outcome class must be the model's (ok / ContextDepthError / TemplateInheritanceError / DisabledTagError, never RecursionError or a hang) and, where no stack cut-off is involved, the observed partial-nesting level at the cut-off must equal the model's level exactly (bounded by 2*limit+4 otherwise); every BlockParser token sequence of length<=4 (thorough 6) is parsed and rendered under STRICT/WARN/LAX under a 5 s CPU-time alarm",
+        design_ref="§4 C09",
+        note="'promptly' is a CPU-time alarm (5 s, confirmed at 20 s) per source; the interpreter stack budget is abstract in the model (only the outcome class is compared when the stack cuts first); families have one outgoing edge per template",
+    ),
 }
 NOT_APPLICABLE = {}
